@@ -76,12 +76,17 @@ func VxH17() {
 			vxFSMkdirAll("/abs/d")
 		}
 	}
+	if shape == 6 {
+		// a regular file (e.g. from the time the port was an ordinary {o:} port) lies at the
+		// streaming output path of the first item
+		vxFSPut("s1.txt", vxFile, 7)
+	}
 	meta := "meta{p:k}.txt"
 	if shape == 5 {
 		meta = "md/sub/meta{p:k}.txt"
 		vxMapOrder("createDirs")
 	}
-	wf, _, _ := vxStreamWFmeta(n, stream, shape == 3, shape >= 4, meta)
+	wf, _, _ := vxStreamWFmeta(n, stream, shape == 3, shape == 4 || shape == 5, meta)
 	vxPreemptBudget(vxGet("preempt"))
 	kind := vxRun(func() { wf.Run() })
 	vxAssert(kind == "returned", "C17.run-completes")
@@ -94,7 +99,13 @@ func VxH17() {
 		out := "s" + k + ".txt.c.txt"
 		vxAssert(vxFSKind(out) == vxFile, "C17.consumer-output-present")
 	}
-	vxAssert(vxNoFifoOrStreamFile(streamFiles), "C17.no-file-no-fifo-no-tempdir-left")
+	if shape == 6 {
+		// the file that was there before is nobody's output of this run: it stays as it was
+		vxAssert(vxFSKind("s1.txt") == vxFile && vxFSPreID("s1.txt") == 7, "C17.preexisting-file-at-stream-path-untouched")
+		vxAssert(vxNoFifoOrStreamFile(streamFiles[1:]), "C17.no-file-no-fifo-no-tempdir-left")
+	} else {
+		vxAssert(vxNoFifoOrStreamFile(streamFiles), "C17.no-file-no-fifo-no-tempdir-left")
+	}
 	// every consumer command read exactly the bytes of a producer command of this run
 	prodInv := map[int]bool{}
 	nCons := 0
@@ -118,7 +129,7 @@ func VxH17() {
 		}
 	}
 	vxAssert(nCons == want, "C17.one-consumer-task-per-streamed-item")
-	if shape >= 4 {
+	if shape == 4 || shape == 5 {
 		for i := 0; i < n; i++ {
 			vxAssert(vxFSKind(strings.Replace(meta, "{p:k}", string(rune('1'+i)), 1)+".copy") == vxFile, "C04.ordinary-output-of-streaming-task-delivered")
 		}
